@@ -35,43 +35,63 @@ def _golden(h, lo, hi, iters=90):
     return x, h(x)
 
 
-def scalar_prox_numeric(phi, x, step, lo_bound=None, hi_bound=None, n_grid=400):
-    """All near-global minimisers of u -> 0.5 (u - x)^2 + step * phi(u), phi even in |u|
-    unless bounds are given.  Brute force: grid + golden-section refinement around every
-    local grid minimum, plus the end points.  Returns a list of minimisers whose objective
-    is within 1e-9 (relative) of the best."""
+def _refine_by_derivative(dh, a, b, iters=200):
+    """Root of the derivative dh in [a, b] by bisection, if it changes sign from - to +."""
+    fa, fb = dh(a), dh(b)
+    if not (fa < 0 < fb):
+        return None
+    for _ in range(iters):
+        m = 0.5 * (a + b)
+        if m == a or m == b:
+            break
+        if dh(m) < 0:
+            a = m
+        else:
+            b = m
+    return 0.5 * (a + b)
+
+
+def scalar_prox_numeric(phi, x, step, n_grid=400, dphi=None):
+    """All near-global minimisers of u -> 0.5 (u - x)^2 + step * phi(|u|), phi even.
+
+    Brute force on [0, |x|] (the minimiser has the sign of x and is not larger than |x| for
+    the non-decreasing penalties used here): grid, golden-section refinement around every
+    local grid minimum, derivative bisection when dphi is given, plus the end points.
+    Returns the minimisers whose objective is within 1e-9 (relative) of the best."""
     x = float(x)
+    ax = abs(x)
+    sgn = 1.0 if x >= 0 else -1.0
 
-    def h(u):
-        return 0.5 * (u - x) ** 2 + step * phi(u)
+    def h(t):
+        return 0.5 * (t - ax) ** 2 + step * phi(t)
 
-    if lo_bound is None and hi_bound is None:
-        lo, hi = (0.0, x) if x >= 0 else (x, 0.0)
-    else:
-        lo = -abs(x) - 1 if lo_bound is None else lo_bound
-        hi = abs(x) + 1 if hi_bound is None else hi_bound
-        lo, hi = min(lo, hi), max(lo, hi)
-    cands = [(lo, h(lo)), (hi, h(hi))]
-    if lo <= 0 <= hi:
-        cands.append((0.0, h(0.0)))
-    if hi > lo:
-        grid = np.linspace(lo, hi, n_grid + 1)
-        vals = np.array([h(u) for u in grid])
+    cands = [(0.0, h(0.0)), (ax, h(ax))]
+    if ax > 0:
+        grid = np.linspace(0.0, ax, n_grid + 1)
+        vals = np.array([h(t) for t in grid])
         for i in range(len(grid)):
             left = vals[i - 1] if i > 0 else INF
             right = vals[i + 1] if i < len(grid) - 1 else INF
             if vals[i] <= left and vals[i] <= right:
-                a = grid[max(i - 1, 0)]
-                b = grid[min(i + 1, len(grid) - 1)]
-                if b > a:
-                    cands.append(_golden(h, a, b))
+                lo = grid[max(i - 1, 0)]
+                hi = grid[min(i + 1, len(grid) - 1)]
+                if hi > lo:
+                    u, hu = _golden(h, lo, hi)
+                    if dphi is not None:
+                        # golden section resolves a minimiser only to sqrt(eps) |x|; the sign
+                        # of the derivative resolves it to machine precision
+                        lo2 = lo if lo > 0 else min(1e-300 + ax * 1e-12, hi)
+                        r = _refine_by_derivative(lambda t: (t - ax) + step * dphi(t), lo2, hi)
+                        if r is not None and h(r) <= hu + 1e-12 * (abs(hu) + 1e-300):
+                            u, hu = r, h(r)
+                    cands.append((u, hu))
     best = min(v for _, v in cands)
     tol = 1e-9 * (abs(best) + 1e-300) + 1e-300
     out = []
     for u, v in cands:
         if v <= best + tol and not any(abs(u - o) <= 1e-9 * (1 + abs(o)) for o in out):
             out.append(float(u))
-    return out
+    return [sgn * u for u in out]
 
 
 class Penalty:
@@ -283,7 +303,9 @@ class MCP(_Sep):
         wt = self._wt(j)
         if self.positive and x <= 0:
             return [0.0]
-        return scalar_prox_numeric(lambda u: wt * self._pen(u), x, step)
+        a, g = self.alpha, self.gamma
+        return scalar_prox_numeric(lambda u: wt * self._pen(u), x, step,
+                                   dphi=lambda t: wt * max(a - t / g, 0.0))
 
     def penalized_mask(self, p):
         if self.weights is None:
@@ -328,8 +350,16 @@ class SCAD(_Sep):
             d = 0.0
         return abs(v - np.sign(wj) * d)
 
+    def _dpen(self, t):
+        a, g = self.alpha, self.gamma
+        if t <= a:
+            return a
+        if t <= a * g:
+            return (a * g - t) / (g - 1)
+        return 0.0
+
     def prox_candidates(self, x, step, j):
-        return scalar_prox_numeric(self._pen, x, step)
+        return scalar_prox_numeric(self._pen, x, step, dphi=self._dpen)
 
 
 class IndicatorBox(_Sep):
@@ -415,7 +445,8 @@ class PowerPenalty(_Sep):
         return abs(-gj - np.sign(wj) * self.alpha * self.q * abs(wj) ** (self.q - 1))
 
     def prox_candidates(self, x, step, j):
-        return scalar_prox_numeric(self._pen, x, step)
+        return scalar_prox_numeric(self._pen, x, step,
+                                   dphi=lambda t: self.alpha * self.q * t ** (self.q - 1))
 
 
 class LogSum(_Sep):
@@ -438,7 +469,8 @@ class LogSum(_Sep):
         return abs(v - np.sign(wj) * self.alpha / (self.eps + abs(wj)))
 
     def prox_candidates(self, x, step, j):
-        return scalar_prox_numeric(self._pen, x, step)
+        return scalar_prox_numeric(self._pen, x, step,
+                                   dphi=lambda t: self.alpha / (self.eps + t))
 
     def slope_scale(self):
         return abs(self.alpha / self.eps)
@@ -681,7 +713,7 @@ class _Row(Penalty):
         nx = np.linalg.norm(x)
         if nx == 0:
             return [np.zeros_like(x)]
-        rs = scalar_prox_numeric(self._pen, nx, step)
+        rs = scalar_prox_numeric(self._pen, nx, step, dphi=self._dpen)
         return [r / nx * x for r in rs]
 
     def fixpoint_res(self, W, G, L):
